@@ -1228,7 +1228,7 @@ fn main() {
     let maxlen = kverif::arg_u64(&a, "maxlen", 60) as usize;
     let stop_after = kverif::arg_u64(&a, "stop-after", 5);
     let casefile = a.get("casefile").cloned();
-    let classes_arg = kverif::arg_str(&a, "classes", "P8,PB,L40,LS,S4,S1,Z0,ZA,L16,N8,N40,N4").to_string();
+    let classes_arg = kverif::arg_str(&a, "classes", "P8,PB,L40,LS,S4,S1,Z0,ZA,L16,N8,N40,N4,A32").to_string();
     let classes: Vec<&str> = classes_arg.split(',').collect();
     let caps_arg = kverif::arg_str(&a, "caps", "0,1,2,u").to_string();
     let caps: Vec<Option<usize>> = caps_arg.split(',').map(parse_cap).collect();
@@ -1361,7 +1361,7 @@ fn main() {
         }
         let class = classes[(rng.below(classes.len() as u64)) as usize];
         let cap = caps[rng.below(caps.len() as u64) as usize];
-        let cap = if rng.chance(1, 10) { Some(3 + rng.below(5) as usize) } else { cap };
+        let cap = if rng.chance(1, 8) { Some(*rng.pick(&[3usize, 4, 5, 6, 7, 16, 31, 32, 33, 34, 40, 64])) } else { cap };
         let actor = rng.chance(1, 2);
         let len = 10 + rng.below((maxlen.max(11) - 10) as u64) as usize;
         // choices are drawn large and reduced modulo the radix at replay time: pre-run to fix them
